@@ -74,3 +74,74 @@ Proof.
   - repeat constructor; vm_compute; reflexivity.
   - split; vm_compute; reflexivity.
 Qed.
+
+(* --- per-refspec agreement with git, for all byte strings -------------------------------------- *)
+
+(* A source that is not a pattern (partial name, or full name starting with refs/) is resolved by
+   match_remotes to the remote reference that git's find_ref_by_name_abbrev (refname_match over
+   ref_rev_parse_rules, best score, first wins) picks — or to none exactly when git finds none. *)
+Theorem name_resolution_is_git : forall names name,
+  option_map (fun p => iname (snd p))
+    (expand_partial_name name (fun e => find_item e (enumerate 0 (items_of_names 0 names)))) =
+  find_ref_by_name_abbrev names name.
+Proof. exact L_name_resolution_is_git. Qed.
+
+(* The destination of a non-pattern refspec is git's get_local_ref, unless it consists of 40 hex digits
+   (then gix prints the lower-cased digits: known class hex-dst-case when they were upper case). *)
+Theorem destination_is_git : forall d,
+  has_star d = false -> oid_from_hex d = None -> to_bstr (needle_of d) = Ok (get_local_ref d).
+Proof. exact L_destination_is_git. Qed.
+
+Theorem destination_hex_is_lowercased : forall d id,
+  has_star d = false -> starts_with refs_prefix d = false -> oid_from_hex d = Some id ->
+  to_bstr (needle_of d) = Ok (bs "refs/heads/" ++ hex_encode id).
+Proof. exact L_destination_hex. Qed.
+
+Theorem destination_is_git_refuted : exists d,
+  has_star d = false /\ to_bstr (needle_of d) <> Ok (get_local_ref d).
+Proof. exists (bs "AAAAAAAAAAAAAAAAAAAAAAAAAAAAAAAAAAAAAAAA"). split; [reflexivity|]. vm_compute. discriminate. Qed.
+
+(* A negative refspec (no destination; a pattern, a name under refs/, or a name that is not an object id such
+   as HEAD) removes from the mappings exactly the sources git's omit_name_by_refspec omits: literal
+   comparison for names, match_name_with_pattern for patterns; object-id sources always stay. *)
+Theorem negative_is_git : forall s src out,
+  ssrc s = Some src -> sdst s = None ->
+  (has_star src = true \/ oid_from_hex src = None \/ starts_with refs_prefix src = true) ->
+  retain_not_matching (matcher_of s) out = Ok (filter (kept_by s) out).
+Proof. exact L_negative_is_git. Qed.
+
+Example resolution_example :
+  find_ref_by_name_abbrev [bs "refs/heads/x"; bs "refs/remotes/x/HEAD"; bs "refs/tags/x"] (bs "x") = Some (bs "refs/tags/x") /\
+  to_bstr (needle_of (bs "heads/foo")) = Ok (bs "refs/heads/foo") /\
+  has_star (bs "heads/foo") = false /\ oid_from_hex (bs "heads/foo") = None /\
+  retain_not_matching (matcher_of {| smode := Negative; ssrc := Some (bs "HEAD"); sdst := None |})
+    [ {| item_index := Some 0%nat; mlhs := SFullName (bs "HEAD"); mrhs := None; spec_index := 0%nat |};
+      {| item_index := Some 1%nat; mlhs := SFullName (bs "refs/heads/HEAD"); mrhs := None; spec_index := 0%nat |} ] =
+    Ok [ {| item_index := Some 1%nat; mlhs := SFullName (bs "refs/heads/HEAD"); mrhs := None; spec_index := 0%nat |} ].
+Proof. repeat split; vm_compute; reflexivity. Qed.
+
+(* --- the composed statement (NOT proved; tested by the harness' `prop` oracle on every case) ---- *)
+
+Definition source_name (s : source) : bytes :=
+  match s with SFullName n => n | SObjectId id => hex_encode id end.
+Definition pairs_of (ms : list mapping) : list pair := map (fun m => (source_name (mlhs m), mrhs m)) ms.
+
+(* the two known classes: an expanded destination git drops as funny although gix regards it as full
+   (funny-dst), and a 40-hex-digit destination written with upper-case digits (hex-dst-case) *)
+Definition known_funny_dst (valid : bytes -> bool) (specs : list rspec) (names : list bytes) : Prop :=
+  exists c p d, git_candidates specs names = Some c /\ In p c /\ snd p = Some d /\
+                dst_is_full d = true /\ git_not_funny valid p = false.
+Definition known_hex_dst_case (specs : list rspec) : Prop :=
+  exists s d id, In s specs /\ sdst s = Some d /\ oid_from_hex d = Some id /\ hex_encode id <> d.
+
+Definition mappings_are_git_full_statement : Prop :=
+  forall valid texts names parsed ms,
+    parse_all texts 0 = Ok parsed ->
+    match_remotes parsed (items_of_names 0 names) = Ok ms ->
+    ~ known_funny_dst valid parsed names -> ~ known_hex_dst_case parsed ->
+    match git_fetch_map valid parsed names with
+    | GitDieMissing => True
+    | GitDieConflict => exists issues, validated_outcome ms = Conflict issues
+    | GitMaps l => exists ms' fixes, validated_outcome ms = Valid ms' fixes /\
+                                     forall p, In p l <-> In p (pairs_of ms')
+    end.
